@@ -416,7 +416,7 @@ def runPath (T : List Fn) : Nat → Prog → List Bool → Option (List Ev × Ou
       | none => none
       | some fn =>
         match runPath T n (fn.body.inst tm cbs) cs with
-        | some (π, .brk, _) => none
+        | some (_, .brk, _) => none
         | some (π, _, cs') => some (π, .norm, cs')
         | none => none
   | n + 1, .seq p q, cs =>
